@@ -634,3 +634,73 @@ pub fn check_replace_args_case(c: &Case) -> Vec<Violation> {
     }
     v
 }
+
+
+// ---- branch tables through the builder ---------------------------------------------------------
+// `br_table(targets, default)` with 0, 1 and 2 targets inside a block that carries a value: the emitted
+// operator is a `br_table` with exactly those depths.
+
+pub fn br_table_cases() -> Vec<Case> {
+    (0..3usize).map(|n| Case { family: "builder-br-table".into(), coords: format!("br_table with {} targets and a default", n), wasm: vec![], cfg: json!({"br_table": n}) }).collect()
+}
+
+pub fn check_br_table_case(c: &Case) -> Vec<Violation> {
+    let n = c.cfg["br_table"].as_u64().unwrap_or(0) as usize;
+    let mut v = vec![];
+    let built = catch_unwind(AssertUnwindSafe(|| {
+        let mut m = Module::default();
+        let mut b = FunctionBuilder::new(&mut m.types, &[ValType::I32], &[ValType::I32]);
+        let arg = m.locals.add(ValType::I32);
+        {
+            let mut body = b.func_body();
+            // outer block (result i32) { inner block (result i32) { 7; selector; br_table [..] default } }
+            body.block(ValType::I32, |outer| {
+                let outer_id = outer.id();
+                outer.block(ValType::I32, |inner| {
+                    let inner_id = inner.id();
+                    let targets: Vec<walrus::ir::InstrSeqId> = (0..n).map(|k| if k % 2 == 0 { inner_id } else { outer_id }).collect();
+                    inner.i32_const(7).local_get(arg).br_table(targets.into(), outer_id);
+                });
+            });
+        }
+        let fid = b.finish(vec![arg], &mut m.funcs);
+        m.exports.add("subject", fid);
+        m.emit_wasm()
+    }));
+    let wasm = match built {
+        Ok(w) => w,
+        Err(p) => {
+            v.push(Violation::new("C15", format!("builder-census-panic:{}", crate::pipe::norm_panic(&panic_msg(p))), "building / emitting a br_table panicked", c));
+            return v;
+        }
+    };
+    if let Err(e) = wmodel::validate214(&wasm, wmodel::FeatureSet::DEFAULT) {
+        v.push(Violation::new("C15", "builder-census-invalid:br_table", e, c));
+        return v;
+    }
+    let w = match wmodel::decode(&wasm) {
+        Ok(w) => w,
+        Err(_) => return v,
+    };
+    let ops: Vec<String> = w.funcs.iter().filter_map(|f| f.body.as_ref()).flat_map(|b| b.ops.iter().map(|(o, _)| o.show())).collect();
+    let tables: Vec<&String> = ops.iter().filter(|o| o.starts_with("BrTable")).collect();
+    let plain_br = w.funcs.iter().filter_map(|f| f.body.as_ref()).flat_map(|b| b.ops.iter()).filter(|(o, _)| o.name == "Br").count();
+    if tables.len() != 1 || plain_br != 0 {
+        v.push(Violation::new("C15", "builder-br-table-emitted-as-something-else", format!("a br_table with {} targets built through the builder is emitted as {:?}", n, ops), c));
+        return v;
+    }
+    // depths: inner = 0, outer = 1
+    let want: Vec<u32> = (0..n).map(|k| if k % 2 == 0 { 0 } else { 1 }).chain(std::iter::once(1)).collect();
+    let got: Vec<u32> = w
+        .funcs
+        .iter()
+        .filter_map(|f| f.body.as_ref())
+        .flat_map(|b| b.ops.iter())
+        .filter(|(o, _)| o.name == "BrTable")
+        .flat_map(|(o, _)| o.imms.iter().filter_map(|i| match i { Imm::Targets(ds) => Some(ds.clone()), _ => None }).flatten().collect::<Vec<u32>>())
+        .collect();
+    if got != want {
+        v.push(Violation::new("C15", "builder-br-table-depths", format!("br_table with {} targets: expected depths {:?} (targets then default), emitted {:?} ({:?})", n, want, got, tables), c));
+    }
+    v
+}
